@@ -73,6 +73,7 @@ def parseUpdSteps (s : String) : List UpdStep :=
   (s.splitOn ";").map (fun st =>
     if st.startsWith "set:" then UpdStep.set (st.drop 4).toString
     else if st = "del" then .del
+    else if st.startsWith "delif:" then .delif (st.drop 6).toString
     else if st = "cancel" then .cancel
     else if st = "err" then .err
     else if st = "retry" then .retry
